@@ -181,6 +181,8 @@ def impl_signals(d):
 def pval(v):
     if isinstance(v, list):
         return "[" + ", ".join(pval(x) for x in v) + "]"
+    if isinstance(v, tuple) and v[0] == "num":
+        return v[2]  # a number with a particular spelling: ("num", value, "0042")
     if isinstance(v, tuple):
         return v[1] if v[0] == "id" else '"' + v[1] + '"'
     if isinstance(v, float):
